@@ -144,6 +144,35 @@ Definition sympy_to_series (P : poly) (n : order) : option expr_value :=
   let c := taylor P n in
   if vzerob W c then None else Some (EV n c).
 
+(* ---------------- which symbol belongs to which index ---------------- *)
+
+(* _sympy_to_BlockSeries: "if not symbols: symbols = tuple(list(operator.free_symbols))" - an
+   explicit [symbols] list is used AS GIVEN (no sorting); without one the iteration order of the
+   set of free symbols is used (unspecified: a fact of the call).  Symbols are their ranks in the
+   name order, as for monomial keys. *)
+Definition resolve_symbols (given free_order : list nat) : list nat :=
+  match given with [] => free_order | _ => given end.
+
+Fixpoint index_of (s : nat) (l : list nat) : option nat :=
+  match l with
+  | [] => None
+  | x :: r => if x =? s then Some 0 else option_map S (index_of s r)
+  end.
+
+(* the exponent of symbol s in the monomial  prod_i symbols_i ^ e_i *)
+Definition powers_of (symbols : list nat) (e : order) (s : nat) : nat :=
+  match index_of s symbols with Some i => nth i e 0 | None => 0 end.
+
+(* a polynomial whose monomials are given by the exponent of every (named) symbol *)
+Definition npoly := (nat -> nat) -> V.
+
+Definition poly_in (symbols : list nat) (Q : npoly) : poly :=
+  fun e => Q (powers_of symbols e).
+
+Definition sympy_named_series (given free_order : list nat) (Q : npoly) (n : order) :
+  option expr_value :=
+  sympy_to_series (poly_in (resolve_symbols given free_order) Q) n.
+
 (* ---------------- the scalar (unblocked) normal form ---------------- *)
 
 Inductive container :=
